@@ -71,17 +71,11 @@ def V.falsy : V → Bool
   | .dict .nil => true
   | _ => false
 
-/-- `merge_dicts(x, None)` for every value of a dict: `x` if truthy else `None` (sheet_headers.py:36-39) -/
-def Kvs.mergeNone : Kvs → Kvs
-  | .nil => .nil
-  | .cons k v rest => .cons k (if v.falsy then .none else v) rest.mergeNone
-
 mutual
-/-- `merge_dicts(dict_a, dict_b, default_key)` (sheet_headers.py:27-56).  The recursion of the Python
-function on `dict_a.get(key)` is structural in `a`; the cases where `a` or `b` is wrapped as
-`{default_key: x}` are unfolded (their recursive calls have `None` on one side).  Note the Python
-`default_key in dict_b` is a *substring* test when `dict_b` is a str, and two strings merge to
-`{default_key: a}` (b is dropped, and the result is nested one level deeper than either input). -/
+/-- `merge_dicts(dict_a, dict_b, default_key)` (sheet_headers.py:27-64, after the repairs b0e6b55 / 93ee817).
+The recursion of the Python function on `dict_a.get(key)` is structural in `a`; the cases where `a` or `b`
+is wrapped as `{default_key: x}` are unfolded.  Two plain values: the later one wins (no nesting, no
+substring test).  A key of `dict_a` that is not in `dict_b` keeps its value as it is. -/
 def merge (dk : Str) (a b : V) : V :=
   match a with
   | .none => b
@@ -89,7 +83,7 @@ def merge (dk : Str) (a b : V) : V :=
     if s.isEmpty then b else if b.falsy then .str s else
     match b with
     | .none => .str s
-    | .str t => if isInfix dk t then .str t else .dict (.cons dk (.str s) .nil)
+    | .str t => .str t
     | .dict kb => if kb.has dk then .dict kb else .dict (.cons dk (.str s) kb)
   | .dict ka =>
     match ka with
@@ -98,13 +92,13 @@ def merge (dk : Str) (a b : V) : V :=
       if b.falsy then .dict ka else
       match b with
       | .none => .dict ka
-      | .str t => if ka.has dk then .dict ka else .dict (ka.mergeNone.append (.cons dk (.str t) .nil))
+      | .str t => if ka.has dk then .dict ka else .dict (ka.append (.cons dk (.str t) .nil))
       | .dict kb => .dict ((mergeKvs dk (.cons k v rest) kb).append (kb.without ka))
-/-- the loop `for key in dict_a: out[key] = merge_dicts(dict_a[key], dict_b.get(key))` -/
+/-- the loop `for key in dict_a: if key in dict_b: out[key] = merge_dicts(dict_a[key], dict_b[key])` -/
 def mergeKvs (dk : Str) (ka kb : Kvs) : Kvs :=
   match ka with
   | .nil => .nil
-  | .cons k v rest => .cons k (merge dk v (kb.get k)) (mergeKvs dk rest kb)
+  | .cons k v rest => .cons k (if kb.has k then merge dk v (kb.get k) else v) (mergeKvs dk rest kb)
 end
 
 /-- `list_to_nested_dict((*tokens, val))` (sheet_headers.py:59-66) -/
